@@ -167,6 +167,19 @@ def _contended(s):
     return s["interleaved"] or s["casfail"] > 0 or h.get("w F#.scratch", 0) > 0
 
 
+def _multisignal_part():
+    from parts_multisignal import PART_MULTISIGNAL
+    p = dict(PART_MULTISIGNAL)
+    g = p["gen"]
+
+    def gen(rng, tier):
+        cs = g(rng, tier)
+        rng.shuffle(cs)
+        return cs[: (3000 if tier == "thorough" else 300)]
+    p["gen"] = gen
+    return p
+
+
 SPEC = {
     "C11": {
         "extra_props": ("QueueHist",),
@@ -181,6 +194,9 @@ SPEC = {
              "nontrivial": _contended},
             {"name": "multichan", "harness": "multichan", "model": "MultiChan", "runtime": True, "gen": gen_multichan,
              "nontrivial": lambda s: s["hist"].get("w waiters", 0) >= 1},
+            # the multi-waiter signal of include/fiber_signal.h (C20's harness and model): the same
+            # header, the same wait / raise protocol with several waiters
+            _multisignal_part(),
             # "for all capacities": every capacity exponent the constructors admit (1 <= k < 32); the
             # object must really have the 2^k slots the access-level models take for granted
             # (oracle-only parts: allocation size, recorded capacity and mask; a refusal is fine)
